@@ -1,34 +1,42 @@
 """C12 -- analysing sources with Script/Project never executes them.
 
-Engine E1 (smallscope) + host/helper observation.  Full product
+Engine E1 (smallscope) + host/helper observation.  Full product (no sampling) of
 
-    tree variant {auto-import name as module, as package}
-  x file-name alphabet (every Python file of the tree appends "<pid> <own relative path>" to a
-    sentinel file when it is imported/executed; conftest.py with fixtures and pytest_plugins,
-    setup.py, sitecustomize.py, usercustomize.py, every settings.auto_import_modules name,
-    __init__/__main__, *.pth, buildout.cfg + bin/script, manage.py + DJANGO_SETTINGS_MODULE,
-    a text file and a real shared object carrying the extension suffix, .py + .pyi, -stubs,
-    a namespace package)
-  x import form (17 ways a buffer can mention the module) + special buffers
-  x Project option {none (discovered), default, sys_path=[root], added_sys_path=[root],
-    smart_sys_path=False, ...}
+    tree variant {every settings.auto_import_modules name as module | as package}
+  x file-name alphabet: every Python file of the generated tree appends "<pid> <own relative
+    path>" to a sentinel file when it is imported/executed: conftest.py (fixtures +
+    pytest_plugins -> plug.py), tests/conftest.py, setup.py, sitecustomize.py,
+    usercustomize.py, gi.py | gi/__init__.py + gi/repository.py, pkg/__init__.py,
+    pkg/__main__.py, pkg/mod.py, __main__.py, evil.pth, buildout.cfg + bin/script -> egg.py,
+    dj/manage.py (DJANGO_SETTINGS_MODULE) + app/, a text file AND a real shared object (load
+    time constructor writes the sentinel) carrying the extension suffix, both.py + both.pyi,
+    stubbed/ + stubbed-stubs/, a namespace package
+  x import form (19 ways a buffer can mention the module, incl. docstring types, type
+    comments, __import__, importlib, sys.path edits, half-typed imports) + 3 special buffers
+    (pytest fixture parameters, bare `import `, the project's conftest.py being edited)
+  x Project option {none (get_default_project), default, sys_path=[root],
+    added_sys_path=[root], smart_sys_path=False; thorough: 3 combinations more; in the
+    cwd=project levels also Script(code) without path}
   x environment {helper process (SameEnvironment), in-process (InterpreterEnvironment)}
-  x working directory {neutral, project root (helpers are spawned there)}
-  x every Script query and refactoring method at every marked position, every documented
-    attribute of every result touched; Project.search / Project.complete_search.
+  x working directory {neutral, project root (helpers are spawned inside the tree)}
+  x every Script query and refactoring method (17 calls) at every marked position + the
+    file-level methods, result attributes touched; Project.search / Project.complete_search
+    x search strings x options (in the project's own default environment).
 
-Oracle (the generator's own knowledge of what it wrote, DESIGN 2.4): after EVERY api call the
-sentinel is absent; no module whose file lies in the tree (or whose name is a tree module and
-which appeared during the call) is in sys.modules of the host or of any helper process;
-sys.path, os.getcwd(), os.environ of host and helpers equal their value before the call.  The
-helper is observed through the existing request protocol: _send(None, eval, (EXPR,)).
+Oracle (the generator's own knowledge of what it wrote, DESIGN 2.4), evaluated after EVERY api
+call: the sentinel is absent; no module whose file lies in the tree (or that is named like a
+tree module and appeared during the call) is in sys.modules of the host or of any helper;
+sys.path, os.getcwd(), os.environ of host and helpers equal their value before the call.
+Helpers are observed through the unmodified request protocol:
+    env._get_subprocess()._send(None, eval, (EXPR,))            (no hook)
 
-Non-vacuity is measured, not assumed: (1) every module of the tree is imported by CPython in a
-clean child -> the sentinel line MUST appear (positive control of the generator); (2) the very
-same (tree, buffer) pairs are analysed with Project(load_unsafe_extensions=True), the
-documented opt-in, in a throw-away helper -> the sentinel MUST appear for the auto-import and
-shared-object symbols (shows those routes reach __import__ and that the observation channel
-sees it); (3) per symbol: results pointing into its files, files parsed by jedi.
+Non-vacuity is measured, not assumed: (1) generator control: CPython importing/running each
+file in a clean child MUST produce its sentinel line; (2) sensitivity control: the very same
+(tree, buffer) pairs analysed with Project(load_unsafe_extensions=True), the documented
+opt-in, MUST execute the auto-import and shared-object symbols in helper and in-process
+(shows that those routes reach __import__ and that the observation channel sees it; otherwise
+harness error); (3) per symbol/form/option hit counts: results pointing into the symbol's
+files, tree files parsed by jedi, load_module refusals seen in-process.
 """
 import importlib.machinery
 import json
@@ -42,7 +50,7 @@ import warnings
 from .. import boot, canon, pool
 
 ID = 'C12'
-BUDGET = {'quick': 300, 'thorough': 1800}
+BUDGET = {'quick': 900, 'thorough': 3600}
 
 EXT = importlib.machinery.EXTENSION_SUFFIXES[0]
 MARK = '\u00a6'
@@ -220,7 +228,7 @@ def module_dir(m):
 
 FORMS = ['import', 'import-as', 'from', 'from-as', 'star', 'from-parent', 'rel-dot', 'rel-mod',
          'in-function', 'try-except', 'type-checking', 'dunder-import', 'importlib',
-         'incomplete', 'subclass', 'call', 'syspath-mod']
+         'incomplete', 'subclass', 'call', 'syspath-mod', 'docstring', 'type-comment']
 SPECIALS = ['pytest-params', 'bare-import', 'conftest-itself']
 
 
@@ -274,6 +282,13 @@ def form_buffer(form, m, root):
         top = os.path.join(root, m['topdir']) if m['topdir'] else root
         return bd, ('import sys\nsys.path.insert(0, %r)\nimport %s%s\n%s.fu%snc\n'
                     % (top, n, M, n, M))
+    if form == 'docstring':
+        # no import statement at all: jedi itself synthesises `import <module>` for dotted
+        # names found in docstring types (jedi/inference/docstrings.py)
+        return bd, ('def f(a):\n    """\n    :type a: %s.K\n    :rtype: %s.K\n    """\n'
+                    '    return a.at%str\n\n\nf(1).at%str\nf(1).%s\n' % (n, n, M, M, M))
+    if form == 'type-comment':
+        return bd, 'import %s\nv = None  # type: %s.K\nv.at%str\nv.%s\n' % (n, n, M, M)
     raise ValueError(form)
 
 
@@ -330,7 +345,7 @@ PROJECT_OPTIONS_MORE = ['sys_path+env', 'sys_path+nosmart', 'added+nosmart']
 
 
 def make_project(jedi, opt, root, env):
-    if opt == 'none':
+    if opt in ('none', 'nopath'):       # discovered by get_default_project(); nopath: from cwd
         return None
     if opt == 'default':
         return jedi.Project(root)
@@ -610,6 +625,12 @@ def _init():
     global _so_template
     boot.boot()
     warnings.simplefilter('ignore')
+    # the parent has booted already (warm-up), so boot() is a no-op in a forked worker: give
+    # every worker its own pickle cache directory (concurrent writers corrupt each other)
+    from jedi import settings
+    cd = os.path.join(boot.scratch_root(), 'cache-%d' % os.getpid())
+    os.makedirs(cd, exist_ok=True)
+    settings.cache_directory = cd
     if _so_template is None and os.path.exists(_so_path()):
         with open(_so_path(), 'rb') as f:
             _so_template = f.read()
@@ -724,7 +745,9 @@ def _script_battery(world, envkind, opt, bufdir, stem, code_marked, deep, path=N
     env = world.env(envkind)
     wheres = ['host'] + ([envkind] if envkind != 'inproc' else [])
     code, positions = split_marks(code_marked)
-    if path is None:
+    if opt == 'nopath':
+        path = None         # Script(code) as typed into an unsaved buffer: project found from cwd
+    elif path is None:
         path = world.fresh_path(bufdir, stem or 'c12b')
     b = Battery(world, wheres, deep)
     holder = {}
@@ -1008,11 +1031,11 @@ def _levels(tier, autos, have_so):
         opts += PROJECT_OPTIONS_MORE
     deep = tier == 'thorough'
 
-    def product(variant_syms, envs, cwd, specials):
+    def product(variant_syms, envs, cwd, specials, options=None):
         ts = []
         for variant, syms in variant_syms:
             for env in envs:
-                for opt in opts:
+                for opt in (options or opts):
                     for sym in syms:
                         for form in FORMS:
                             ts.append({'kind': 'form', 'variant': variant, 'cwd': cwd, 'env': env,
@@ -1038,18 +1061,22 @@ def _levels(tier, autos, have_so):
     levels = [
         ('helper environment x symbols x forms x options (cwd neutral)',
          product([('m', syms_m), ('p', auto_p)], ['helper'], 'neutral', SPECIALS)),
-        ('in-process environment x compiled/auto-import symbols x forms x options',
-         product([('m', compiled_m), ('p', auto_p)], ['inproc'], 'neutral', ['bare-import'])),
-        ('Project.search/complete_search x strings x options',
+        ('in-process environment x %s symbols x forms x options (cwd neutral)'
+         % ('all' if deep else 'compiled/auto-import'),
+         product([('m', syms_m if deep else compiled_m), ('p', auto_p)], ['inproc'], 'neutral',
+                 ['bare-import'])),
+        ('Project.search/complete_search x strings x options (cwd neutral)',
          searches('m', 'neutral', base_strings + strings['m'])
          + searches('p', 'neutral', strings['p'])),
     ]
-    for variant, syms in (('m', compiled_m if tier == 'quick' else syms_m), ('p', auto_p)):
+    # helpers are spawned with the tree as working directory; 'nopath' = Script(code) without
+    # path and project, i.e. the project is discovered from the working directory
+    opts_cwd = opts + ['nopath']
+    for variant, syms in (('m', syms_m if deep else compiled_m), ('p', auto_p)):
         ts = product([(variant, syms)], ['helper'], 'project',
-                     SPECIALS if tier == 'thorough' else ['pytest-params'])
-        if tier == 'thorough':
-            ts += product([(variant, [s for s in syms if _is_compiled_or_auto(s)])], ['inproc'],
-                          'project', [])
+                     SPECIALS if deep else ['pytest-params'], opts_cwd)
+        ts += product([(variant, [s for s in syms if _is_compiled_or_auto(s)])], ['inproc'],
+                      'project', [], opts_cwd if deep else ['none', 'nopath'])
         ts += searches(variant, 'project',
                        (base_strings[:2] + strings['m'][:8]) if variant == 'm' else strings['p'])
         levels.append(('cwd = project root, helpers spawned inside the tree (variant %s)'
